@@ -4,6 +4,7 @@ package main
 import (
 	"fmt"
 	"os"
+	"os/exec"
 
 	"github.com/coreruleset/crs-toolchain/v2/zz_verif/checks"
 	"github.com/coreruleset/crs-toolchain/v2/zz_verif/core"
@@ -44,6 +45,22 @@ func main() {
 	}
 	r := core.NewRun(id, tier, replay)
 	f(r)
+	if !r.IsWorker() && r.SeamInvalid != "" && !r.Degraded() && !r.CLIOnly {
+		// the repository code keeps state between runs in one process (or otherwise behaves differently than
+		// a fresh CLI process): the in-process verdicts are not trusted, the check is decided by the CLI seam alone
+		fmt.Println("SEAM-INVALID:", r.SeamInvalid)
+		fmt.Println("re-running", id, "in degraded mode (every execution is a fresh process of the real CLI, reduced bounds)")
+		cmd := exec.Command(os.Args[0], os.Args[1:]...)
+		cmd.Env = append(os.Environ(), "VT_DEGRADED=1")
+		cmd.Stdout, cmd.Stderr = os.Stdout, os.Stderr
+		err := cmd.Run()
+		if ee, ok := err.(*exec.ExitError); ok {
+			os.Exit(ee.ExitCode())
+		} else if err != nil {
+			os.Exit(2)
+		}
+		os.Exit(0)
+	}
 	if r.IsWorker() {
 		fmt.Fprintln(os.Stderr, "worker stage not reached")
 		os.Exit(4)
